@@ -138,6 +138,60 @@ def _reader_lookup_strict(repo):
     return bool(strict)
 
 
+def _prelude_and_kex_range(repo, consts):
+    """The leading `if ptype == MSG_X: ... continue/break` chain of the run loop (types dealt with before any
+    table is consulted) and the `(ptype >= LO) and (ptype <= HI)` key-exchange range test."""
+    run = _find_run(repo)
+    loops = [n for n in ast.walk(run) if isinstance(n, ast.While) and ast.unparse(n.test) == "self.active"]
+    if len(loops) != 1:
+        raise RuntimeError("Transport.run: expected one `while self.active:` loop")
+    prelude = []
+    for st in loops[0].body:
+        if not (isinstance(st, ast.If) and isinstance(st.test, ast.Compare) and isinstance(st.test.left, ast.Name)
+                and st.test.left.id == "ptype" and len(st.test.ops) == 1 and isinstance(st.test.ops[0], ast.Eq)):
+            continue
+        node = st
+        while True:
+            t = node.test
+            if not (isinstance(t, ast.Compare) and isinstance(t.left, ast.Name) and t.left.id == "ptype"
+                    and len(t.ops) == 1 and isinstance(t.ops[0], ast.Eq) and isinstance(t.comparators[0], ast.Name)
+                    and t.comparators[0].id in consts):
+                raise RuntimeError("Transport.run prelude: unrecognised test " + ast.unparse(t))
+            last = node.body[-1]
+            if isinstance(last, ast.Continue):
+                stops = False
+            elif isinstance(last, ast.Break):
+                stops = True
+            else:
+                raise RuntimeError("Transport.run prelude: branch for %s does not end in continue/break"
+                                   % t.comparators[0].id)
+            for n in node.body:
+                for x in ast.walk(n):
+                    if isinstance(x, ast.Call) and isinstance(x.func, ast.Attribute) and "send" in x.func.attr:
+                        raise RuntimeError("Transport.run prelude: branch for %s sends a message" % t.comparators[0].id)
+            prelude.append((consts[t.comparators[0].id], stops))
+            if len(node.orelse) == 1 and isinstance(node.orelse[0], ast.If):
+                node = node.orelse[0]
+                continue
+            if node.orelse:
+                raise RuntimeError("Transport.run prelude: unexpected else")
+            break
+        break
+    if not prelude:
+        raise RuntimeError("Transport.run prelude not found")
+    rng = []
+    for n in ast.walk(loops[0]):
+        if isinstance(n, ast.BoolOp) and isinstance(n.op, ast.And) and len(n.values) == 2:
+            a, b = n.values
+            if (isinstance(a, ast.Compare) and isinstance(b, ast.Compare) and ast.unparse(a.left) == "ptype"
+                    and ast.unparse(b.left) == "ptype" and isinstance(a.ops[0], ast.GtE) and isinstance(b.ops[0], ast.LtE)
+                    and isinstance(a.comparators[0], ast.Constant) and isinstance(b.comparators[0], ast.Constant)):
+                rng.append((a.comparators[0].value, b.comparators[0].value))
+    if len(rng) != 1:
+        raise RuntimeError("Transport.run: expected one `(ptype >= LO) and (ptype <= HI)` test, found %r" % rng)
+    return prelude, rng[0]
+
+
 def generate(repo):
     import paramiko
     from paramiko import common, transport as T, auth_handler as AH
@@ -183,6 +237,13 @@ def generate(repo):
         if not isinstance(v, int):
             raise RuntimeError("%s is not an int" % c)
         out.append("Definition %s : Z := %d." % (c, v))
+    allc = {k: v for k, v in vars(common).items() if k.startswith("MSG_") and isinstance(v, int)}
+    prelude, (lo, hi) = _prelude_and_kex_range(repo, allc)
+    out.append("(* types the run loop deals with before any table: (type, leaves the loop) in source order *)")
+    out.append("Definition prelude : list (Z * bool) := [%s]." %
+               "; ".join("(%d, %s)" % (v, "true" if stp else "false") for v, stp in prelude))
+    out.append("Definition KEX_LO : Z := %d." % lo)
+    out.append("Definition KEX_HI : Z := %d." % hi)
     out.append("(* fallback branch of Transport.run: `name = MSG_NAMES[ptype]` (true) or `.get(ptype, d)` (false) *)")
     out.append("Definition name_lookup_strict : bool := %s." % ("true" if _name_lookup_strict(repo) else "false"))
     out.append("(* fallback branch sends its reply with _send_user_message (waits for clear_to_send) *)")
